@@ -46,7 +46,8 @@ def main():
         shutil.rmtree('/tmp/rfb_%s' % name, ignore_errors=True)
     dst = os.path.join(VERIF, 'refactors', name)
     os.makedirs(dst, exist_ok=True)
-    shutil.copy(diff, os.path.join(dst, 'patch.diff'))
+    if os.path.abspath(diff) != os.path.abspath(os.path.join(dst, 'patch.diff')):
+        shutil.copy(diff, os.path.join(dst, 'patch.diff'))
     res['fired'] = [c for c, v in res['checks'].items() if v['exit'] != 0 or v['violations']]
     json.dump(res, open(os.path.join(dst, 'meta.json'), 'w'), indent=1)
     print(name, 'applies' if res.get('applies_to_head') else 'DOES NOT APPLY', 'suite', res.get('suite'), 'fired', res['fired'])
